@@ -248,6 +248,8 @@ def hunt(ctx, make_test, seed, max_examples, shrink=True, max_root_causes=None):
     if max_root_causes is None:
         max_root_causes = 3 if ctx.tier == "quick" else 8
     for attempt in range(max_root_causes):
+        if ctx.out_of_time():
+            return found
         test = make_test()
         test = hseed(seed + 7919 * attempt)(hyp_settings(max_examples, shrink=shrink)(test))
         try:
@@ -282,7 +284,11 @@ def tree_frame(exc):
 def guarded(ctx, fn, case, allowed=()):
     """Run an oracle on a case.  An exception raised *inside the tree under test* by an operation the
     property says must succeed is a violation (shrinkable); an exception raised by the harness itself
-    propagates and ends the run as a harness error."""
+    propagates and ends the run as a harness error.  Once the tier's time budget is used up the remaining generated
+    cases are skipped (counted; the run is then reported as inconclusive beyond what was explored)."""
+    if ctx.out_of_time():
+        ctx.cls("cases_skipped_after_the_time_budget")
+        return None
     try:
         return fn(case)
     except Viol:
